@@ -90,6 +90,7 @@ def run_bounded(rep, prop, quick):
     if env.os_environ_flag('VERIF_NO_BOUNDED'):
         rep.assume('bounded layer disabled by VERIF_NO_BOUNDED for this run')
         return
+    rep.bounded_started = True
     try:
         B = importlib.import_module(f'vlib.bounded.{prop}')
     except ImportError as e:
